@@ -3,7 +3,7 @@
    Print Assumptions.  M_Legacy is the model of profile/legacy_profile.go that the correspondence
    check runs against the real ParseData on every run; convert_* (M_LegacyDoc) is the documented
    conversion of an abstract document; S_Legacy is the specification on the observable profile. *)
-From PV Require Import M_LegacyDoc S_Legacy L_Legacy.
+From PV Require Import M_LegacyDoc S_Legacy L_Legacy M_LegacyGlue L_LegacyGlue.
 Open Scope Z_scope.
 
 (* -- whatever the raw samples a parser hands to the final pass (ids, mappings, clean-up), the
@@ -86,6 +86,47 @@ Theorem parse_print_count_record_partial : forall c a, wf_dec c -> a <> [] -> Fo
   = Ok {| rs_addrs := map (fun h => dec1 (addr_of h)) a; rs_vals := [dec_val c]; rs_bytes := None |}.
 Proof. exact count_line_print_lemma. Qed.
 Print Assumptions parse_print_count_record_partial.
+
+(* ---- the glue through which the values are observed with pprof (M_LegacyGlue; tied to driver.PProf, the
+        interactive shell and the web handlers by the end-to-end cases of every run) ---- *)
+
+(* a column named on the command line / in sample_index= / in a URL is the FIRST column whose type is the
+   name itself or the name without "inuse_": never one that merely ends with the name *)
+Theorem named_column_is_first_exact_match : forall types dflt si i,
+  nonempty si = true -> atoi si = None -> sample_index_by_name types dflt si = Some i ->
+  0 <= i /\
+  (exists t, nth_error types (Z.to_nat i) = Some t /\ (t = si \/ t = trim_prefix "inuse_" si)) /\
+  (forall j t, (j < Z.to_nat i)%nat -> nth_error types j = Some t -> t <> si /\ t <> trim_prefix "inuse_" si).
+Proof. exact sample_index_named_lemma. Qed.
+Print Assumptions named_column_is_first_exact_match.
+
+(* on the four columns of a heap profile with allocation data every name selects its own column; the
+   legacy names work on the two-column form; the default is the last column *)
+Theorem heap_columns_by_name :
+  map (sample_index_by_name ["alloc_objects"; "alloc_space"; "inuse_objects"; "inuse_space"]%string "")
+      ["alloc_objects"; "alloc_space"; "inuse_objects"; "inuse_space"; ""; "space"]%string
+  = [Some 0; Some 1; Some 2; Some 3; Some 3; None] /\
+  map (sample_index_by_name ["objects"; "space"]%string "") ["inuse_objects"; "inuse_space"; "alloc_space"]%string
+  = [Some 0; Some 1; None].
+Proof. vm_compute. split; reflexivity. Qed.
+Print Assumptions heap_columns_by_name.
+
+(* interactive shortcuts: total_<type> leaves mean mode whatever the history, mean_<type> enters it, the
+   plain <type> shortcut and sample_index= keep it *)
+Theorem shortcuts_set_mean_mode : forall types dflt st t, In t types ->
+  g_mean (int_step types dflt st ("total", t)%string) = false /\
+  g_mean (int_step types dflt st ("meanof", t)%string) = true /\
+  g_mean (int_step types dflt st ("type", t)%string) = g_mean st /\
+  g_mean (int_step types dflt st ("si", t)%string) = g_mean st.
+Proof. exact shortcuts_mean_lemma. Qed.
+Print Assumptions shortcuts_set_mean_mode.
+
+(* what a report shows of a sample: the selected column as it is in total mode; divided by column 0 in mean mode *)
+Theorem report_value_total_or_mean : forall idx vals,
+  shown_value idx false vals = nth (Z.to_nat idx) vals 0 /\
+  (nth 0 vals 0 <> 0 -> shown_value idx true vals = Z.quot (nth (Z.to_nat idx) vals 0) (nth 0 vals 0)).
+Proof. exact shown_value_lemma. Qed.
+Print Assumptions report_value_total_or_mean.
 
 (* Full statements of which the theorem above is the proved part (whole documents, every format);
    the remaining distance is covered on every run by the correspondence check: the parser model,
